@@ -290,7 +290,7 @@ fn int_rows_for(lit: &[u8], types: &[&str], out: &mut Out) {
             if let Some(Err(e)) = Tokenizer::new_params(lit).next() {
                 for ty in types {
                     out.put(&json!({"t": "int", "ty": ty, "kind": "hex", "lit": bytes_json(lit), "val": [],
-                                    "src": lossy(lit), "obs": obs_err(&Error::from(e))}));
+                                    "src": lossy(lit), "obs": obs_err(&Error::from(e)), "via": "lexer"}));
                 }
             }
         }
